@@ -632,6 +632,25 @@ func (c *Ctx) typeTables() {
 			}
 		}
 		cs := caseConsts(fn)
+		// written as a table indexed by the type (directly or through an accessor): a type value is covered when the
+		// function yields something else for it than for a value outside the table
+		if len(cs) == 0 {
+			if fallback, _, ok := evalConstFunc(fn, constant.MakeInt64(200), 0); ok && fallback != nil {
+				tc := map[int64]bool{}
+				all := true
+				for k := x.from; k <= x.to; k++ {
+					v, _, ok := evalConstFunc(fn, constant.MakeInt64(k), 0)
+					if !ok || v == nil {
+						all = false
+						break
+					}
+					tc[k] = !(v.Kind() == fallback.Kind() && constant.Compare(v, token.EQL, fallback)) || x.name == "DefaultFlags"
+				}
+				if all {
+					cs = tc
+				}
+			}
+		}
 		var missing []string
 		for k := x.from; k <= x.to; k++ {
 			if !cs[k] {
@@ -1300,10 +1319,33 @@ func (c *Ctx) decoderLike(fn *ssa.Function, d int) bool {
 // propagation through its control-flow graph: only comparisons of the parameter with constants, boolean
 // connectives, phis and constant returns are understood; anything else makes the result unknown.
 func evalSmallIntFunc(fn *ssa.Function, k int64) (int64, bool) {
-	if len(fn.Params) != 1 || len(fn.Blocks) == 0 {
+	v, _, ok := evalConstFunc(fn, constant.MakeInt64(k), 0)
+	if !ok || v == nil || v.Kind() != constant.Int {
 		return 0, false
 	}
-	env := map[ssa.Value]constant.Value{fn.Params[0]: constant.MakeInt64(k)}
+	n, exact := constant.Int64Val(v)
+	return n, exact
+}
+
+// tableCell: an address into a package-level variable: element idx of an array (idx < 0: the variable itself), field
+// `field` of it (field < 0: the whole element).
+type tableCell struct {
+	g     *ssa.Global
+	idx   int64
+	field int
+}
+
+// evalConstFunc folds a function of one small integer for a given argument: branches, comparisons and arithmetic on
+// constants, loads from package-level tables as the package initialiser fills them, and calls of single-parameter
+// helpers of the same kind (which may return an address into such a table).
+func evalConstFunc(fn *ssa.Function, arg constant.Value, depth int) (constant.Value, *tableCell, bool) {
+	if len(fn.Params) != 1 || len(fn.Blocks) == 0 || depth > 3 {
+		return nil, nil, false
+	}
+	env := map[ssa.Value]constant.Value{fn.Params[0]: arg}
+	// addresses into a package-level table indexed by a known value: (table, index, field or -1)
+	type cell = tableCell
+	addr := map[ssa.Value]cell{}
 	val := func(v ssa.Value) (constant.Value, bool) {
 		if c, ok := v.(*ssa.Const); ok {
 			if c.Value == nil {
@@ -1353,6 +1395,37 @@ func evalSmallIntFunc(fn *ssa.Function, k int64) (int64, bool) {
 						env[x] = constant.MakeBool(!constant.BoolVal(a))
 					}
 				}
+				if x.Op == token.MUL {
+					if cl, ok := addr[x.X]; ok {
+						if v, ok := tableInit(cl.g, cl.idx, cl.field); ok {
+							env[x] = v
+						}
+					}
+				}
+			case *ssa.Call:
+				// a helper of one small-integer parameter (an accessor into the table)
+				if callee := x.Common().StaticCallee(); callee != nil && callee.Blocks != nil && len(callee.Params) == 1 && len(x.Common().Args) == 1 && callee.Pkg == fn.Pkg {
+					if av, ok := val(x.Common().Args[0]); ok {
+						if rv, rc, ok := evalConstFunc(callee, av, depth+1); ok {
+							if rc != nil {
+								addr[x] = *rc
+							} else if rv != nil {
+								env[x] = rv
+							}
+						}
+					}
+					continue
+				}
+				// len of a package-level array is its constant length
+				if bi, ok := x.Common().Value.(*ssa.Builtin); ok && bi.Name() == "len" && len(x.Common().Args) == 1 {
+					if u, ok := x.Common().Args[0].(*ssa.UnOp); ok {
+						if g, ok := u.X.(*ssa.Global); ok {
+							if at, ok := g.Type().(*types.Pointer).Elem().Underlying().(*types.Array); ok {
+								env[x] = constant.MakeInt64(at.Len())
+							}
+						}
+					}
+				}
 			case *ssa.Convert:
 				if a, ok := val(x.X); ok {
 					env[x] = a
@@ -1361,10 +1434,24 @@ func evalSmallIntFunc(fn *ssa.Function, k int64) (int64, bool) {
 				if a, ok := val(x.X); ok {
 					env[x] = a
 				}
+			case *ssa.IndexAddr:
+				if g, ok := x.X.(*ssa.Global); ok {
+					if iv, ok := val(x.Index); ok && iv.Kind() == constant.Int {
+						if n, exact := constant.Int64Val(iv); exact {
+							addr[x] = cell{g, n, -1}
+						}
+					}
+				}
+			case *ssa.FieldAddr:
+				if cl, ok := addr[x.X]; ok && cl.field < 0 {
+					addr[x] = cell{cl.g, cl.idx, x.Field}
+				} else if g, ok := x.X.(*ssa.Global); ok {
+					addr[x] = cell{g, -1, x.Field}
+				}
 			case *ssa.If:
 				cv, ok := val(x.Cond)
 				if !ok || cv.Kind() != constant.Bool {
-					return 0, false
+					return nil, nil, false
 				}
 				prev = b
 				if constant.BoolVal(cv) {
@@ -1377,25 +1464,33 @@ func evalSmallIntFunc(fn *ssa.Function, k int64) (int64, bool) {
 				b = b.Succs[0]
 			case *ssa.Return:
 				if len(x.Results) != 1 {
-					return 0, false
+					return nil, nil, false
+				}
+				if cl, ok := addr[x.Results[0]]; ok {
+					return nil, &cl, true
+				}
+				if g, ok := x.Results[0].(*ssa.Global); ok {
+					return nil, &cell{g, -1, -1}, true
 				}
 				rv, ok := val(x.Results[0])
 				if !ok {
-					return 0, false
+					return nil, nil, false
 				}
-				n, exact := constant.Int64Val(constant.ToInt(rv))
-				return n, exact
+				if rv.Kind() == constant.Int {
+					return constant.ToInt(rv), nil, true
+				}
+				return rv, nil, true
 			case *ssa.DebugRef:
 			default:
 				// calls, loads, stores: not a pure function of the parameter
 				if _, isVal := in.(ssa.Value); isVal {
 					continue // its value stays unknown; only matters if it is used
 				}
-				return 0, false
+				return nil, nil, false
 			}
 		}
 	}
-	return 0, false
+	return nil, nil, false
 }
 
 // packetIDWrittenWhole: every encoder writes the packet identifier as the two bytes its length function counts. The
@@ -1536,3 +1631,88 @@ func (c *Ctx) dbufIsViewOfInput() bool {
 	}
 	return n > 0
 }
+
+// tableInit: the constant the package initialiser stores into element idx (field `field`, or the element itself for
+// field < 0) of the package-level array g; the zero value when the initialiser stores nothing there.
+func tableInit(g *ssa.Global, idx int64, field int) (constant.Value, bool) {
+	if g.Pkg == nil {
+		return nil, false
+	}
+	init := g.Pkg.Func("init")
+	if init == nil {
+		return nil, false
+	}
+	var elem types.Type
+	if at, ok := g.Type().(*types.Pointer).Elem().Underlying().(*types.Array); ok && idx >= 0 {
+		if idx >= at.Len() {
+			return nil, false
+		}
+		elem = at.Elem()
+	} else if idx < 0 {
+		elem = g.Type().(*types.Pointer).Elem()
+	} else {
+		return nil, false
+	}
+	var found constant.Value
+	for _, b := range init.Blocks {
+		for _, in := range b.Instrs {
+			st, ok := in.(*ssa.Store)
+			if !ok {
+				continue
+			}
+			a := st.Addr
+			f := -1
+			if fa, ok := a.(*ssa.FieldAddr); ok {
+				f = fa.Field
+				a = fa.X
+			}
+			if f != field {
+				continue
+			}
+			if idx < 0 {
+				if a != ssa.Value(g) {
+					continue
+				}
+			} else {
+				ia, ok := a.(*ssa.IndexAddr)
+				if !ok || ia.X != ssa.Value(g) {
+					continue
+				}
+				k, ok := ia.Index.(*ssa.Const)
+				if !ok || k.Value == nil {
+					continue
+				}
+				if n, exact := constant.Int64Val(constant.ToInt(k.Value)); !exact || n != idx {
+					continue
+				}
+			}
+			if kv, ok := st.Val.(*ssa.Const); ok && kv.Value != nil {
+				found = kv.Value
+			} else {
+				return nil, false
+			}
+		}
+	}
+	if found != nil {
+		return found, true
+	}
+	// nothing stored: the zero value
+	et := elem
+	if field >= 0 {
+		if stt, ok := et.Underlying().(*types.Struct); ok && field < stt.NumFields() {
+			et = stt.Field(field).Type()
+		}
+	}
+	if bt, ok := et.Underlying().(*types.Basic); ok {
+		switch {
+		case bt.Info()&types.IsInteger != 0:
+			return constant.MakeInt64(0), true
+		case bt.Info()&types.IsString != 0:
+			return constant.MakeString(""), true
+		case bt.Info()&types.IsBoolean != 0:
+			return constant.MakeBool(false), true
+		}
+	}
+	return nil, false
+}
+
